@@ -181,6 +181,10 @@ func (h *Handler) HandleMessage(msg stanza.Message, t xmlstream.TokenReadEncoder
 
 	for i.Next() {
 		start, _ := i.Current()
+		// Character data between the payloads has no start element.
+		if start == nil {
+			continue
+		}
 		switch start.Name.Local {
 		case "received":
 			_, id := attr.Get(start.Attr, "id")
